@@ -439,12 +439,14 @@ class Interp:
         elif h == 'qiter':
             n = 0
             if s[2] > 0:
+                self.emit(label, 'getreq', [s[1]])
                 async for v in self.queues[s[1]]:
                     self.emit(label, 'got', [v])
                     await self.block(label, s[3:])
                     n += 1
                     if n >= s[2]:
                         break
+                    self.emit(label, 'getreq', [s[1]])     # (about to ask for the next item)
         elif h == 'cput':
             item = s[2] * 1000 + self.put_count
             self.put_count += 1
